@@ -373,3 +373,21 @@ impl<R: Host> Memo<R> {
         resolved
     }
 }
+
+// ---- type-only markers of export lists (C09.18): the binder must not branch on them
+pub struct NamedSpecifier {
+    pub orig: String,
+    pub is_type_only: bool,
+}
+pub fn bind_reads_type_only_marker(s: &NamedSpecifier, types: &mut Vec<String>, values: &mut Vec<String>) {
+    let NamedSpecifier { orig, is_type_only } = s;
+    if *is_type_only {
+        types.push(orig.clone());
+    } else {
+        values.push(orig.clone());
+    }
+}
+pub fn bind_ignores_type_only_marker(s: &NamedSpecifier, values: &mut Vec<String>) {
+    let NamedSpecifier { orig, .. } = s;
+    values.push(orig.clone());
+}
